@@ -57,16 +57,16 @@ def json_database(rng, scheme, cfg):
     kws = [k for k in kws if len(k.encode("utf8")) <= limit]
     pool = []
     space = 256 ** isz - 1
-    while len(pool) < min(10, space):
+    while len(pool) < min(44, space):
         b = gen.gen_id(rng, isz, zero_rich=rng.random() < 0.5)
         if rng.random() < 0.3 and isz > 1:
             b = b"\x00" + b[1:] if any(b[1:]) else b
         if b not in pool and any(b):
             pool.append(b)
     db = {}
-    budget = min(cp["max_total"], 24)
+    budget = min(cp["max_total"], 60)
     for k in kws:
-        n = min(rng.randint(1, 6), cp["max_list"], len(pool), budget)
+        n = min(rng.choice([rng.randint(1, 6), rng.randint(1, 6), rng.randint(17, 40)]), cp["max_list"], len(pool), budget)
         if n < 1:
             break
         budget -= n
@@ -107,17 +107,28 @@ class Flow:
             self.log.append("new-client-object")
         return self.svc
 
-    async def net(self, coro_fn):
-        """Run a network step; returns ('ok', payload) | ('closed', code) | ('timeout', None) | ('raised', exc)."""
+    async def net(self, coro_fn, reply_type=None):
+        """Run a network step; returns ('ok', payload) | ('closed', code) | ('timeout', None) | ('raised', exc) |
+        ('lost', type): the server handed the reply to its transport but the client never passed it to the callback."""
         got = {}
 
         def cb(fut):
             got["content"] = fut.result()
         svc = self.svc
+        sent_log = self.env["sent_log"]
+        mark = len(sent_log)
+        loop = asyncio.get_running_loop()
         task = asyncio.ensure_future(coro_fn(cb))
-        t_end = asyncio.get_running_loop().time() + 10
+        t_end = loop.time() + 10
         while not task.done():
             await asyncio.sleep(0.005)
+            if reply_type and "content" not in got:
+                sent = [t for (sid, ty, t) in sent_log[mark:] if sid == self.sid and ty == reply_type]
+                if sent and loop.time() - sent[0] > 2.0:
+                    task.cancel()
+                    with contextlib.suppress(BaseException):
+                        await task
+                    return ("lost", reply_type)
             if svc.websocket is not None and svc.websocket.closed and "content" not in got:
                 task.cancel()
                 with contextlib.suppress(BaseException):
@@ -147,11 +158,12 @@ class Flow:
             svc.handle_encrypt_database(copy.deepcopy(self.db))
             return ("ok", None)
         if name == "upload-config":
-            return await self.net(lambda cb: svc.handle_upload_config(wait=True, wait_callback_func=cb))
+            return await self.net(lambda cb: svc.handle_upload_config(wait=True, wait_callback_func=cb), "config")
         if name == "upload-index":
-            return await self.net(lambda cb: svc.handle_upload_encrypted_database(wait=True, wait_callback_func=cb))
+            return await self.net(lambda cb: svc.handle_upload_encrypted_database(wait=True, wait_callback_func=cb),
+                                  "upload_edb")
         if name == "search":
-            r = await self.net(lambda cb: svc.handle_keyword_search(keyword, wait=True, wait_callback_func=cb))
+            r = await self.net(lambda cb: svc.handle_keyword_search(keyword, wait=True, wait_callback_func=cb), "result")
             if r[0] == "ok":
                 res = svc.sse_module_loader.SSEResult.deserialize(r[1], svc.config_object)
                 return ("ok", res.get_result_list())
@@ -334,10 +346,14 @@ async def big_result(spec, acc, ctx):
     env = wh.setup_env()
     server = await wh.Server().start()
     rng = ctx.rng
-    scheme = "CJJ14.PiPack"
+    for scheme, n in (("CJJ14.PiPack", 40000), ("DP17.Pi", 300)):
+        await big_one(env, server, acc, scheme, n)
+    await server.stop()
+
+
+async def big_one(env, server, acc, scheme, n):
     cfg = gen.default_config(scheme)
     cfg["param_identifier_size"] = 32
-    n = 40000
     ids = [(i + 1).to_bytes(32, "big").hex() for i in range(n)]
     db_json = {"the": ids, "rare": ids[:2]}
     flow = Flow(env, server, acc, scheme, cfg, db_json)
@@ -362,15 +378,14 @@ async def big_result(spec, acc, ctx):
                               f"({len(flow.db[w]) * 32} bytes of identifiers): {r[0]} {r[1]!r:.60}", case)
                 return
             acc.count("searches_compared")
-            if list(r[1]) != flow.db[w]:
+            if (set(r[1]) != set(flow.db[w])) if scheme in gen.SET_RESULT else (list(r[1]) != flow.db[w]):
                 acc.violation("e2e:big:wrong-result", f"result for {w!r} differs", case)
                 return
-        acc.add("distinct", fp("big", n))
+        acc.add("distinct", fp("big", scheme, n))
     except Exception as e:
         acc.violation(f"e2e:big:raised:{exc_site(e)}", f"{type(e).__name__}: {e}", case)
     finally:
         await flow.drop()
-        await server.stop()
 
 
 def real_processes(spec, acc, ctx):
